@@ -28,6 +28,9 @@ type Prog struct {
 	Vaddr  uint64 `json:"vaddr"`
 	Filesz uint64 `json:"filesz"`
 	Memsz  uint64 `json:"memsz"`
+	// PaddrDelta: the physical address written to the header is Vaddr plus
+	// this (0 = the customary paddr == vaddr). Loaders map by Vaddr.
+	PaddrDelta uint64 `json:"paddr_delta,omitempty"`
 }
 
 type Sec struct {
@@ -336,7 +339,7 @@ func Build(d *Desc) []byte {
 			bo.PutUint32(b[4:], p.Flags)
 			bo.PutUint64(b[8:], p.Off)
 			bo.PutUint64(b[16:], p.Vaddr)
-			bo.PutUint64(b[24:], p.Vaddr)
+			bo.PutUint64(b[24:], p.Vaddr+p.PaddrDelta)
 			bo.PutUint64(b[32:], p.Filesz)
 			bo.PutUint64(b[40:], p.Memsz)
 			bo.PutUint64(b[48:], 4)
@@ -344,7 +347,7 @@ func Build(d *Desc) []byte {
 			bo.PutUint32(b[0:], p.Type)
 			bo.PutUint32(b[4:], uint32(p.Off))
 			bo.PutUint32(b[8:], uint32(p.Vaddr))
-			bo.PutUint32(b[12:], uint32(p.Vaddr))
+			bo.PutUint32(b[12:], uint32(p.Vaddr+p.PaddrDelta))
 			bo.PutUint32(b[16:], uint32(p.Filesz))
 			bo.PutUint32(b[20:], uint32(p.Memsz))
 			bo.PutUint32(b[24:], p.Flags)
